@@ -1748,6 +1748,9 @@ func (ex *Exec) lookup(fr *Frame, x *ssa.Lookup) Value {
 		ex.unsupported("lookup in %T", cv)
 	}
 	mt := x.X.Type().Underlying().(*types.Map)
+	if ex.guards != nil {
+		ex.raceCheck(m.Obj, false, ex.posOf(x))
+	}
 	md := ex.mapData(m)
 	var val Value = ex.zero(mt.Elem())
 	found := ex.ts.False()
@@ -1790,6 +1793,9 @@ func (ex *Exec) mapUpdate(mv, k, v Value, site ssa.Instruction) {
 		panic(&GoPanic{Val: ex.runtimeErrorValue("assignment to entry in nil map"), Msg: "assignment to entry in nil map", Runtime: true, Site: ex.posOf(site), Stack: ex.stackStrings()})
 	}
 	mt := m.Obj.Typ.Underlying().(*types.Map)
+	if ex.guards != nil {
+		ex.raceCheck(m.Obj, true, ex.posOf(site))
+	}
 	md := ex.mapData(m)
 	entries := make([]MapEntry, 0, len(md.Entries)+1)
 	replaced := false
